@@ -17,7 +17,7 @@ pub fn def02() -> PropDef {
     PropDef {
         info: PropInfo {
             id: "C02",
-            rule: "layouts: VM struct (metadata VM, raw VM without metadata buffer, no-data VM without packet either), packet of 0-64 bytes and metadata buffer absent or 8-64 bytes, each placed start- or end-against a PROT_NONE page; 0-3 registered ranges of 1-32 bytes inside a canary-filled arena, some separated by holes of only 1-7 bytes; in a third of the layouts one more registered range covers all the others (extended by 0-3 bytes on either side) and is registered last, first, second, or with the whole order reversed; in a quarter of the layouts a registered range encloses the packet (0-15 bytes more below, 0-7 above). probes: one access instruction {ldx, st, stx, xadd, ldabs, ldind} x width {1,2,4,8} whose effective address is a region boundary (start or end of packet / metadata / each range / the stack) plus a delta in [-9,+9], or 0, 1, u64::MAX-k, a base+offset sum that wraps past 2^64, or a far address; base value and displacement are split randomly between register and 16-bit offset (imm+src for ldind); a quarter of the probes first perform a narrower access through the same register and offset; a quarter first perform an in-bounds access of the same offset and width and then redefine the base register (lddw, mov, add, stack reload, result of a helper call, ldabs); one in eight is loaded under an accept-all verifier and moves r10 by -128..127 just before the access (the stack region does not move with r10); in a quarter of the layouts the metadata buffer starts 1-7 bytes after the end of the packet. Oracle (computed from the real addresses inside the child): allowed <=> all bytes inside exactly one region (and naturally aligned for xadd); allowed => Ok with the exact loaded value / exactly the stored bytes changed; refused => Err (never a panic or signal) and no byte of packet, metadata, arena or canaries changed. The thorough tier additionally enumerates every (region boundary, delta, kind, width) combination for fixed layouts. Non-trivial = effective address within 9 bytes of a region boundary, or wrapped; distinct by hash of layout+probe.",
+            rule: "layouts: VM struct (metadata VM, raw VM without metadata buffer, no-data VM without packet either), packet of 0-64 bytes and metadata buffer absent or 8-64 bytes, each placed start- or end-against a PROT_NONE page; 0-3 registered ranges of 1-32 bytes inside a canary-filled arena, some separated by holes of only 1-7 bytes; in a third of the layouts one more registered range covers all the others (extended by 0-3 bytes on either side) and is registered last, first, second, or with the whole order reversed; in a quarter of the layouts a registered range encloses the packet (0-15 bytes more below, 0-7 above). probes: one access instruction {ldx, st, stx, xadd, ldabs, ldind} x width {1,2,4,8} whose effective address is a region boundary (start or end of packet / metadata / each range / the stack) plus a delta in [-9,+9], or 0, 1, u64::MAX-k, a base+offset sum that wraps past 2^64, or a far address; base value and displacement are split randomly between register and 16-bit offset (imm+src for ldind); half of the stack probes use r10 itself as the base register; a quarter of the probes first perform a narrower access through the same register and offset; a quarter first perform an in-bounds access of the same offset and width and then redefine the base register (lddw, mov, add, stack reload, result of a helper call, ldabs); one in eight is loaded under an accept-all verifier and moves r10 by -128..127 just before the access (the stack region does not move with r10); in a quarter of the layouts the metadata buffer starts 1-7 bytes after the end of the packet. Oracle (computed from the real addresses inside the child): allowed <=> all bytes inside exactly one region (and naturally aligned for xadd); allowed => Ok with the exact loaded value / exactly the stored bytes changed; refused => Err (never a panic or signal) and no byte of packet, metadata, arena or canaries changed. The thorough tier additionally enumerates every (region boundary, delta, kind, width) combination for fixed layouts. Non-trivial = effective address within 9 bytes of a region boundary, or wrapped; distinct by hash of layout+probe.",
             assumptions: &["the interpreter's stack is reached through r10-relative probes (its absolute address is unknown); loads from it only have to succeed", "registered ranges never touch or partially overlap each other or the other regions (holes of 1-7 bytes between two ranges, one range that wholly contains the others and one that wholly contains the packet are generated on purpose): an access inside the union of two partially overlapping ranges but inside neither is left undecided by the statement"],
         },
         run: run02,
@@ -379,6 +379,12 @@ fn build(p: &Probe, r: &Regions, ld_base: u64) -> Option<Built> {
                     }
                     _ => lddw(&mut out, 1, ea.wrapping_sub(off as i64 as u64)),
                 },
+                (None, Some(d)) if p.val & 1 == 1 && p.move_r10 == 0 && p.rebase & 15 == 0 => {
+                    // the frame pointer itself is the base register: [r10 + delta]
+                    emit_access_via(&mut out, p, w, d as i16, 10);
+                    out.push(Insn::new(EXIT, 0, 0, 0, 0));
+                    return Some(Built { prog: encode_prog(&out), ea, stack_delta, near, prime: None });
+                }
                 (None, Some(d)) => {
                     out.push(Insn::new(alu_opc(true, ALU_MOV, true), 1, 10, 0, 0));
                     out.push(Insn::new(alu_opc(true, ALU_ADD, false), 1, 0, 0, (d - off as i64) as i32));
